@@ -20,6 +20,8 @@ def dispatch (j : Json) : R Json := do
   | "high_low" => handleHighLow j
   | "ellipse" => handleEllipse j
   | "density" => handleDensity j
+  | "to_rfi" => handleToRfi j
+  | "to_mef" => handleToMef j
   | "ping" => pure (Json.mkObj [("pong", Json.bool true)])
   | _ => throw s!"unknown op {op}"
 
